@@ -10,11 +10,25 @@ sys.path.insert(0, os.path.dirname(os.path.abspath(__file__)))
 from common import Recorder, args, replay_main
 
 from peptacular.proforma.proforma_parser import parse, serialize, ProFormaAnnotation, MultiProFormaAnnotation
-from peptacular.util import convert_type
+import re
+
+
+def convert_type(v):
+    """what a modification text denotes (independent of the library's helper): a signed integer, a signed decimal, else a name"""
+    if isinstance(v, (int, float)):
+        return v
+    if re.fullmatch(r'[+-]?\d+', v):
+        return int(v)
+    if re.fullmatch(r'[+-]?(\d+\.\d*|\.\d+)', v):
+        return float(v)
+    return v
+
 
 SPELLINGS = ['Oxidation', 'U:Oxidation', 'UNIMOD:35', 'M:L-methionine sulfoxide', 'MOD:00719', 'XLMOD:02001', 'X:DSS', '+15.995', '-18.01', '15.995', '42',
              'Formula:C2H3N1O-1', 'Formula:[13C2]C4H2[15N1]', 'Glycan:HexNAc2Hex3', 'Obs:+17.05', 'INFO:any note', 'Oxidation#g1', '#g1', '#g1(0.5)',
-             'Oxidation|INFO:x', 'Obs:+15.9|Oxidation', 'Label:13C(6)', 'U:Label:13C(6)15N(2)', '+1.5#BRANCH']
+             'Oxidation|INFO:x', 'Obs:+15.9|Oxidation', 'Label:13C(6)', 'U:Label:13C(6)15N(2)', '+1.5#BRANCH',
+             # decimals whose float is WRITTEN in exponent notation by str(): very small / very large shifts
+             '+0.00001', '0.000031', '-25000000000000000000.0']
 
 
 def mod_text(m):
@@ -175,7 +189,7 @@ def run(rec, tier, seed):
     # multi-chain strings
     pool = [d for d in ds if len(d['seq']) <= 7][:: (9 if tier == 'quick' else 2)]
     for i in range(0, len(pool) - 2, 2):
-        for links in (['+'], ['//'], ['+', '+'], ['+', '//']):
+        for links in (['+'], ['//'], ['+', '+'], ['+', '//'], ['//', '+'], ['//', '//']):
             chains = pool[i:i + len(links) + 1]
             inp = dict(chains=chains, links=links)
             rec.guarded('round-trip', inp, lambda: case(inp), fk)
